@@ -2,6 +2,10 @@
 BASELINE = "cd /repo && /venv/bin/python -m pytest -ra -q -p no:cacheprovider --timeout=900 --continue-on-collection-errors"
 
 ENGINES = [
+    {"name": "chrun", "path": "vt/chrun.py", "serves_properties": ["C19"],
+     "kind_free_text": "CrossHair (symbolic execution of the real Python with z3), one process per condition; only 'Confirmed over all paths' discharges"},
+    {"name": "smt", "path": "vt/smt.py", "serves_properties": [],
+     "kind_free_text": "SMT-LIB2 queries on z3 5.1 / z3 4.8.12 / cvc5 binaries with two-solver agreement"},
     {"name": "strlang", "path": "vt/strlang.py", "serves_properties": ["C28"],
      "kind_free_text": "Python re patterns / string-predicate ASTs -> z3 regular languages; inclusion decided by z3 for strings of any length"},
     {"name": "pathsym", "path": "vt/pathsym.py", "serves_properties": ["C28"],
@@ -22,6 +26,16 @@ CHECKS = {
         technique="z3 regular-language inclusion over the real validators' translated AST/regex (unbounded length)",
         design_ref="6/C28, 3.4"),
 }
+
+CHECKS["C19"] = dict(
+    level="other",
+    text="CrossHair symbolic execution (z3) of the real Batch._create_bunches with symbolic spec sizes, group/job split "
+         "and limits; every path confirmed for N<=4 specs (quick) / N<=7 (thorough), sizes < max_bunch_bytesize <= 64. "
+         "Bounded exhaustive-over-values claim, which is what a splitting loop with two interacting limits needs.",
+    note="orjson.dumps replaced by an object of symbolic length (the method only uses len); method's own precondition "
+         "n_bytes < max_bunch_bytesize assumed; longer lists and larger limits are outside the claim; trusted: CrossHair/z3.",
+    technique="CrossHair symbolic execution of the real method, all paths confirmed within bounds",
+    design_ref="6/C19")
 
 NOT_APPLICABLE = {
     "C37": "Scala floating-point statistics calling Apache commons-math (gamma/beta, root finding); no scalac/JVM build of "
